@@ -338,7 +338,7 @@ class GriffeLoader:
                 # Try getting the module from which every public object is imported.
                 try:
                     target = self.modules_collection.get_member(member.target_path)  # type: ignore[union-attr]
-                except KeyError:
+                except (KeyError, AliasResolutionError, CyclicAliasError):
                     logger.debug(
                         "Could not expand wildcard import %s in %s: %s not found in modules collection",
                         member.name,
@@ -356,7 +356,11 @@ class GriffeLoader:
                         continue
 
                 # Collect every imported object.
-                expanded.extend(self._expand_wildcard(member))  # type: ignore[arg-type]
+                try:
+                    expanded.extend(self._expand_wildcard(member))  # type: ignore[arg-type]
+                except (AliasResolutionError, CyclicAliasError) as error:
+                    logger.debug("Could not expand wildcard import %s in %s: %s", member.name, obj.path, error)
+                    continue
                 to_remove.append(member.name)
 
             # Recurse in unseen submodules.
